@@ -594,7 +594,22 @@ impl EpisodeState {
             };
         }
         let boosted: &[Cmd] = match self.focus {
-            1 => &[Cmd::ToggleFlows, Cmd::NextTrace, Cmd::PreviousTrace, Cmd::NextHop, Cmd::PreviousHop, Cmd::ToggleFreeze, Cmd::NextHopAddress, Cmd::ClearTraceData, Cmd::NextTrace, Cmd::NextHop],
+            1 => &[
+                Cmd::ToggleFlows,
+                Cmd::NextTrace,
+                Cmd::PreviousTrace,
+                Cmd::NextHop,
+                Cmd::PreviousHop,
+                Cmd::ToggleFreeze,
+                Cmd::NextHopAddress,
+                Cmd::ClearTraceData,
+                Cmd::NextTrace,
+                Cmd::NextHop,
+                Cmd::ExpandPrivacy,
+                Cmd::ExpandPrivacy,
+                Cmd::ExpandPrivacy,
+                Cmd::ContractPrivacy,
+            ],
             2 => &[
                 Cmd::ToggleFreeze,
                 Cmd::ClearTraceData,
